@@ -15,6 +15,76 @@ COMMON_ASSUMPTIONS = [
 TRACE_ALL = "planted,linear,prio,contra,malformed,caps"
 
 PROPS = {
+    "C12": {
+        "modules": ["Ezpz.Proofs.Assembly", "Ezpz.Proofs.AssemblyPerm", "Ezpz.Proofs.Rename", "Ezpz.Real.GaussNewton", "Ezpz.Real.StopTests", "Ezpz.Properties.C10"],
+        "suites": [
+            {"suite": "kernels", "quick": (150,), "thorough": (3000,)},
+            {"suite": "trace", "quick": (400, "planted,linear,prio,contra"), "thorough": (6000, "planted,linear,prio,contra,caps,conflict")},
+        ],
+        "oracles": [
+            {"bin": "oracle_c12", "quick": ("{seed}", "800"), "thorough": ("{seed}", "20000")},
+        ],
+        "partial": ["solve_equivariant (the whole solve commutes with request permutations and variable renumberings, in exact arithmetic) is not assembled into one theorem: its ingredients are proved separately - the stacked residual / Jacobian of a permuted request list is the row-block permutation of the original (adjacent swaps with explicit row maps; multisets in general), renumbering maps columns and leaves rows, values, warnings, lint, validation and the unsatisfied sweep unchanged, the damped step is invariant under row permutations and equivariant under column permutations, the three stopping quantities depend only on multisets, and the priority levels do not depend on the listing order",
+                    "'up to numerical noise': summation order inside faer changes with row / column order; left to the oracle on the real code (known finding F16: on inconsistent rank-deficient systems one order converges and another does not)"],
+        "assumptions": ["the LU answer is a parameter; over the reals it is characterised by IsStep, which is what the permutation theorems are about"],
+        "rule": "planted and linear systems; all request permutations for <= 4 requests, random samples otherwise; random variable renumberings with the guess list reordered to match; verdicts, solved priority and under-constrained sets must match exactly through the permutation, values of constrained variables within 1e-6*scale, under-constrained ones within 1e-2*scale with every constraint still satisfied",
+    },
+    "C15": {
+        "modules": ["Ezpz.Proofs.Lint", "Ezpz.Real.Lint", "Ezpz.Proofs.Warnings"],
+        "suites": [
+            {"suite": "kernels", "quick": (150,), "thorough": (3000,)},
+            {"suite": "trace", "quick": (400, "planted,prio,contra,malformed,conflict"), "thorough": (6000, "planted,prio,contra,malformed,conflict,linear,caps")},
+        ],
+        "oracles": [
+            {"bin": "oracle_c15", "quick": ("{seed}", "2000"), "thorough": ("{seed}", "60000")},
+        ],
+        "partial": ["'always gets a warning' is proved for the request subset whose outcome / failure is returned (lint_survives, lint_survives_error, lint_single_level); for a special-angle request at a level that was never attempted or was abandoned the code emits nothing - the statement is false of the code there (known finding F12; machine-checked negation witness lint_lost_below_solved_priority, general form no_warning_above_solved_priority)",
+                    "'none for solves that start near a non-degenerate solution' is a claim about the iterates of the f64 loop: searched by the oracle, not proved; what is proved is that every notice names a request whose evaluation raised the flag at a visited configuration (newtonLoop_warnings, C07.warning_indices), what the flag means geometrically per kind (degenerate_sound_*), and that a collapse at the guess is always reported (degenerate_complete_at_guess)",
+                    "zero radius is not guarded for circles (CircleRadius, CircleTangentToCircle never raise the flag; circle_kinds_unguarded): 'zero radius' in the statement is covered for arcs only"],
+        "assumptions": ["EPSILON is the value extracted from lib.rs on this run; the angle lint theorems are over the reals (pi*180/pi = 180 exactly), the f64 behaviour at the special values is checked by the oracle in both units"],
+        "rule": "systems containing explicit-angle requests with angles from a dense set around 0, +-90, 180, 360 (and 270, -180, 45, ...) in degrees and radians, at one and at several priority levels, solvable and unsolvable; planted systems with and without deliberately collapsed guesses (zero-length lines, coincident points, zero-radius arcs); every warning in Ok and Err results is audited against the request it names",
+    },
+    "C16": {
+        "modules": ["Ezpz.Properties.C16"],
+        "suites": [
+            {"suite": "text", "quick": (300, 150), "thorough": (5000, 2000)},
+        ],
+        "oracles": [
+            {"bin": "oracle_c16.py", "python": True, "quick": ("{seed}", "150"), "thorough": ("{seed}", "3000"), "timeout": 7200},
+        ],
+        "partial": ["the theorems are about the hand-written model of main.rs (Ezpz/Model/Cli.lean, CliMain.lean); the tie to the real program is the comparison of exit status and standard output of the release binary built from /repo with the model's rendering, by path and by stdin, on every generated text",
+                    "cli_never_panics assumes the LU oracle does not panic (LinSolveTotal, as in C06); panics inside faer, clap argument handling, --image-path (visualize::save_png) and the two wall-clock performance lines are outside the model",
+                    "the benchmark loop's unwrap is safe given determinism of the numeric kernels (C10): resolve_deterministic is about the model, a pure function"],
+        "assumptions": ["fmt2 ({:.2} formatting) is an exact decimal rounding implemented in the driver and compared against the real binary's output"],
+        "rule": "problem texts: the repository's own test cases, generated valid texts (points, circles, arcs, all instruction forms), unsolvable and contradictory ones, and mutated / malformed ones; each is run through the release `ezpz` binary by path and by stdin, with and without --show-points; exit status, absence of panic and every stdout line are compared with the model's rendering of the library outcome computed in-process",
+    },
+    "C17": {
+        "modules": ["Ezpz.Proofs.Assembly", "Ezpz.Real.GaussNewton2", "Ezpz.Real.StopTests", "Ezpz.Properties.C06"],
+        "suites": [
+            {"suite": "trace", "quick": (400, "planted,linear,prio,contra"), "thorough": (6000, "planted,linear,prio,contra,caps,conflict")},
+        ],
+        "oracles": [
+            {"bin": "oracle_c17", "quick": ("{seed}", "300", "12"), "thorough": ("{seed}", "3000", "200")},
+        ],
+        "partial": ["iterates_restrict / independence: proved are the ingredients - requests of groups sharing no variables give a block-diagonal Jacobian and a concatenated residual at every configuration (disjoint_block_structure, disjoint_no_coupling), a group's rows depend only on its own variables (group1_independent, group2_independent), the damped step of the union is exactly the pair of the groups' steps (step_of_blocks), the union's residual test passes iff every group's does and its step norm is the largest group norm (residual_test_of_union, step_norm_of_union), an Ok result has only finite values (C06.ok_implies_finite, which closes the NaN cross-talk path); equality of returned values is therefore exact for equal iteration counts; when one group converges earlier the union keeps stepping it (global stopping rules) and the difference is a convergence quantity, left to the oracle (<= 1e-5*scale)",
+                    "known finding F16: a group that is inconsistent and rank-deficient may converge alone and not in the union (or vice versa) because of rounding noise in the null space"],
+        "assumptions": ["the LU answer is a parameter; over the reals it is characterised by IsStep"],
+        "rule": "disjoint unions of 2..200 planted or linear sub-systems (each 1..12 constraints), requests interleaved at random, variable ids offset and shuffled; each group is first solved alone on the real code; the union must succeed with the same verdicts per group and the same values for every variable that is not under-constrained within 1e-5*scale",
+    },
+    "C05": {
+        "modules": ["Ezpz.Properties.C05", "Ezpz.Real.Kernel", "Ezpz.Real.Dof"],
+        "suites": [
+            {"suite": "trace", "quick": (500, "planted,linear,prio,contra"), "thorough": (8000, "planted,linear,prio,contra,caps,conflict,disparity")},
+        ],
+        "oracles": [
+            {"bin": "oracle_c05.py", "python": True, "quick": ("{seed}", "800"), "thorough": ("{seed}", "20000")},
+        ],
+        "partial": ["dof_spec is about exact real arithmetic under the SvdSpec contract and the two gap hypotheses (the property's own 'well-separated cases only'); that faer's f64 SVD meets the contract is checked as a certificate (V orthogonal, VtJtJV = diag sigma^2, sigma sorted) on every recorded trace, and the float thresholds on borderline spectra are outside the statement",
+                    "the analysed Jacobian is the one of the returned configuration only when the solve ended at the residual test (analysis_of_returned_model); after a step-size stop it is the Jacobian one step earlier - the difference is below the step tolerance"],
+        "assumptions": ["SvdSpec: the part of faer's SVD contract the code relies on (U is never used)"],
+        "trusted_extra": ["faer dense SVD: modelled as a parameter; contract SvdSpec checked numerically per recorded trace (tools/compare_trace.py)"],
+        "rule": "planted and linear systems with 0..15 constraints and 2..40 variables (incl. pinned, free-floating, rank-deficient but over-determined, free variables hidden behind equalities, no constraints): solve_analysis on the real code vs numpy null space of a finite-difference Jacobian at the returned point; cases without a clear gap in the singular values or participations are excluded by the oracle",
+    },
     "C02": {
         "modules": ["Ezpz.Properties.C02", "Ezpz.Real.GaussNewton", "Ezpz.Real.GaussNewton3"],
         "suites": [
